@@ -2,48 +2,67 @@
 (* C09.  A level: what the driver of instrumented generators may rely on; M level:      *)
 (* the token machine of overlay.proceed across yields.                                  *)
 (* World (harness/worlds/lifeworld.py): gen(2) calls g(k) and yields, twice; overlay o1 *)
-(* carries 'gen > g > a' (needs the generator as an ancestor), o2 carries 'g > a'.      *)
-(* Collection items: R1 / R2 = root pair of o1 / o2, K1 = child pair <<g(!a), fork>>    *)
-(* that HandlerCollection.proceed adds on entering gen under R1.                        *)
+(* carries 'gen > g > a' (needs the generator as an ancestor), o2 carries 'g > a', o3   *)
+(* carries 'drive > g > a' where drive is the instrumented function the driver's own     *)
+(* code may be running in (the caller's enclosing function, second half of C09).         *)
+(* Collection items: R1 / R2 / R3 = root pair of o1 / o2 / o3, K1 / K3 = child pair      *)
+(* <<g(!a), fork>> that HandlerCollection.proceed adds on entering gen under R1 / drive   *)
+(* under R3.  (The child selectors of o1 and o3 are the SAME interned object.)           *)
 EXTENDS Integers, Sequences, FiniteSets, TLC
 Gens == {"g1", "g2"}
-Ovls == {"o1", "o2"}
-Root(o) == IF o = "o1" THEN "R1" ELSE "R2"
+Ovls == {"o1", "o2", "o3"}
+Root(o) == CASE o = "o1" -> "R1" [] o = "o2" -> "R2" [] o = "o3" -> "R3"
 Count(c, x) == Len(SelectSeq(c, LAMBDA y : y = x))
 
 \* ------------- M: mechanism state m = [cur, otok, gtok, gst, ost]
 MInit == [cur |-> <<>>, otok |-> [o \in Ovls |-> <<>>], gtok |-> [g \in Gens |-> <<>>],
-          gst |-> [g \in Gens |-> "none"], ost |-> [o \in Ovls |-> "new"]]
+          gst |-> [g \in Gens |-> "none"], ost |-> [o \in Ovls |-> "new"], dtok |-> <<>>, indrive |-> FALSE]
 \* HandlerCollection.proceed(gen): every pair is kept; each R1 is followed by its child K1
 RECURSIVE ProceedGen(_)
 ProceedGen(c) == IF c = <<>> THEN <<>>
                  ELSE (IF Head(c) = "R1" THEN <<"R1", "K1">> ELSE <<Head(c)>>) \o ProceedGen(Tail(c))
+\* HandlerCollection.proceed(drive): each R3 is followed by its child K3; leaving drive restores the token
+RECURSIVE ProceedDrive(_)
+ProceedDrive(c) == IF c = <<>> THEN <<>>
+                   ELSE (IF Head(c) = "R3" THEN <<"R3", "K3">> ELSE <<Head(c)>>) \o ProceedDrive(Tail(c))
+MDrive(m) == [m EXCEPT !.dtok = m.cur, !.cur = ProceedDrive(m.cur), !.indrive = TRUE]
+MUndrive(m) == [m EXCEPT !.cur = m.dtok, !.indrive = FALSE]
 MEnter(m, o) == [m EXCEPT !.otok[o] = m.cur, !.cur = Append(m.cur, Root(o)), !.ost[o] = "open"]
 MExit(m, o)  == [m EXCEPT !.cur = m.otok[o], !.ost[o] = "closed"]              \* reset(token)
 MNew(m, g)   == [m EXCEPT !.gst[g] = "new"]
 \* events a call of g delivers, matched against the collection current at that moment
 FiresO1(c) == Count(c, "K1")
 FiresO2(c) == Count(c, "R2")
+FiresO3(c) == Count(c, "K3")
+Fires(c, o) == CASE o = "o1" -> FiresO1(c) [] o = "o2" -> FiresO2(c) [] o = "o3" -> FiresO3(c)
 \* next(): first call enters proceed (token := cur; cur := ProceedGen(cur)) and runs to the first yield *inside*
 \* the with-proceed block; later calls resume there; the third call ends the generator: reset(token)
 MNext(m, g) ==
   CASE m.gst[g] = "new"   -> LET c2 == ProceedGen(m.cur) IN
-                             [m |-> [m EXCEPT !.gtok[g] = m.cur, !.cur = c2, !.gst[g] = "s1"], f1 |-> FiresO1(c2), f2 |-> FiresO2(c2), k |-> 0]
-    [] m.gst[g] = "s1"    -> [m |-> [m EXCEPT !.gst[g] = "s2"], f1 |-> FiresO1(m.cur), f2 |-> FiresO2(m.cur), k |-> 1]
-    [] m.gst[g] = "s2"    -> [m |-> [m EXCEPT !.gst[g] = "done", !.cur = m.gtok[g]], f1 |-> 0, f2 |-> 0, k |-> 2]
-    [] OTHER              -> [m |-> m, f1 |-> 0, f2 |-> 0, k |-> 3]
+                             [m |-> [m EXCEPT !.gtok[g] = m.cur, !.cur = c2, !.gst[g] = "s1"], f |-> [o \in Ovls |-> Fires(c2, o)], k |-> 0]
+    [] m.gst[g] = "s1"    -> [m |-> [m EXCEPT !.gst[g] = "s2"], f |-> [o \in Ovls |-> Fires(m.cur, o)], k |-> 1]
+    [] m.gst[g] = "s2"    -> [m |-> [m EXCEPT !.gst[g] = "done", !.cur = m.gtok[g]], f |-> [o \in Ovls |-> 0], k |-> 2]
+    [] OTHER              -> [m |-> m, f |-> [o \in Ovls |-> 0], k |-> 3]
 \* close / drop of a started generator: GeneratorExit at the yield, proceed.__exit__ restores the token
 MEnd(m, g) == IF m.gst[g] \in {"s1", "s2"} THEN [m EXCEPT !.gst[g] = "done", !.cur = m.gtok[g]]
               ELSE [m EXCEPT !.gst[g] = IF m.gst[g] = "none" THEN "none" ELSE "done"]
 
 \* ------------- A: abstract state a = [open (sequence of open overlays), gst]
-AInit == [open |-> <<>>, gst |-> [g \in Gens |-> "none"]]
+\* indrive: the driver's code runs inside drive; o3d: o3 was open when drive was entered (the activation it can match)
+AInit == [open |-> <<>>, gst |-> [g \in Gens |-> "none"], indrive |-> FALSE, o3d |-> FALSE]
 IsOpen(a, o) == \E i \in DOMAIN a.open : a.open[i] = o
 \* the driver sees exactly the root pairs of the open overlays, independent of generator states
-ACur(a) == [i \in DOMAIN a.open |-> Root(a.open[i])]
-\* a resumption that runs g inside the generator: o1 and o2 fire once each if open
-ANextFires(a, g, o) == IF a.gst[g] \in {"new", "s1"} /\ IsOpen(a, o) THEN 1 ELSE 0
+\* the selector of the caller's enclosing function keeps matching: every g called while drive runs - by the driver's code
+\* itself or by a generator it resumes - is a g under drive
+UnderDrive(a) == a.indrive /\ a.o3d /\ IsOpen(a, "o3")
+\* a resumption that runs g inside the generator: o1 and o2 fire once each if open, o3 if the resumption happens under drive
+ANextFires(a, g, o) == IF a.gst[g] \in {"new", "s1"} /\ (IF o = "o3" THEN UnderDrive(a) ELSE IsOpen(a, o)) THEN 1 ELSE 0
 \* the driver's own call of g: never under the generator
-ACallFires(a, o) == IF o = "o2" /\ IsOpen(a, o) THEN 1 ELSE 0
+ACallFires(a, o) == IF (o = "o2" /\ IsOpen(a, o)) \/ (o = "o3" /\ UnderDrive(a)) THEN 1 ELSE 0
+\* what the driver sees installed: the root pairs of the open overlays, plus o3's child pair while it runs inside drive
+RECURSIVE ACurOf(_, _)
+ACurOf(open, drive) == IF open = <<>> THEN <<>>
+                       ELSE (IF Head(open) = "o3" /\ drive THEN <<"R3", "K3">> ELSE <<Root(Head(open))>>) \o ACurOf(Tail(open), drive)
+ACur(a) == ACurOf(a.open, a.indrive /\ a.o3d)
 ANextState(s) == CASE s = "new" -> "s1" [] s = "s1" -> "s2" [] s = "s2" -> "done" [] OTHER -> s
 =============================================================================
